@@ -352,7 +352,28 @@ pub fn gen_class(rng: &mut Rng, cfg: &GenCfg) -> Class {
     let mut c = g.class();
     // drawn after the class itself, so the classes of earlier harness versions are unchanged for a given seed
     if c.module.is_none() && major >= 51 && g.rng.chance(1, 6) { add_sibling_dynamics(&mut g, &mut c); }
+    if major >= 49 && g.rng.chance(1, 50) { add_deep_annotation(&mut g, &mut c); }
     c
+}
+
+/// One annotation nested 40..=200 levels deep (annotation in annotation, now and then through an array) on the class, a
+/// field or a method. Readers, writers and replays that recurse with a depth limit of their own only show here.
+fn add_deep_annotation(g: &mut G, c: &mut Class) {
+    let depth = *g.rng.pick(&[40usize, 63, 64, 65, 66, 100, 128, 200]);
+    let t = JS::new("Ldeep/Anno;");
+    let mut a = Annotation { type_: t.clone(), pairs: vec![(JS::new("leaf"), ElementValue::IntLike(b'I', depth as i32))] };
+    for i in 0..depth {
+        let inner = ElementValue::Annotation(a);
+        let v = if i % 7 == 3 { ElementValue::Array(vec![inner]) } else { inner };
+        a = Annotation { type_: t.clone(), pairs: vec![(JS::new("v"), v)] };
+    }
+    let targets = 1 + c.fields.len() + c.methods.len();
+    let k = g.rng.below(targets);
+    let invisible = g.rng.bool();
+    let slot: &mut Vec<Annotation> = if k == 0 { if invisible { &mut c.invis_annotations } else { &mut c.vis_annotations } }
+        else if k <= c.fields.len() { let f = &mut c.fields[k - 1]; if invisible { &mut f.invis_annotations } else { &mut f.vis_annotations } }
+        else { let m = &mut c.methods[k - 1 - c.fields.len()]; if invisible { &mut m.invis_annotations } else { &mut m.vis_annotations } };
+    slot.push(a);
 }
 
 /// Adds a method whose body loads / invokes several dynamic constants and call sites that SHARE one bootstrap method entry
